@@ -29,7 +29,7 @@ func init() {
 			"reader chunkings: constant chunk sizes {1,2,3,5,7,64,1023,1024,1025,2047,2048,2049} and every schedule with <=1 (thorough 2) short reads among the first 6 reads, on programs of 0.5-5 KiB; oracle: AST string equals the unpadded/unchunked parse with the token text intact; " +
 			"two more padding kinds put the padding on the line itself (k spaces/tabs after the break = the next token starts in column k+1; k spaces/tabs before the break), sizes around 256, 1 KiB, 2 KiB, 4 KiB, 8 KiB at every mark; for paddings <= 8 KiB the padded program is also evaluated and must print and return what the unpadded one does (3 base programs show the order of keyword arguments, keyword defaults and pairs); " +
 			"script files with LF / CRLF / CR line breaks, a raw string spanning lines, a comment and padding of 0..8 KiB are run by the real binary; " +
-			"non-trivial = padding/length >= 1000 bytes or a chunked read; distinct = distinct (program, position, kind, size) / (program, schedule)",
+			"non-trivial = padding/length >= 1000 bytes or a chunked read; distinct = distinct (program, position, kind, size) / (program, schedule); round 8: Every bracketed construct is also compared with its one-line spelling (AST and evaluation; incl. calls and literals made of expansions only); four programs are entered in the REPL's multi-line mode with blanks of 0..4096 bytes at line ends and on lines of their own.",
 		Assumptions: []string{
 			"ast.Program.String() is the observable; comments are not part of it",
 			"read schedules with more than 2 deviations are not explored",
